@@ -64,7 +64,7 @@ class ReadStream(Stream):
         S = np.array([j2m(M) for M in d["S"]], complex).reshape(len(d["S"]), n, n)
         pin_dic = {self._pin(d, k): d["idx"][k] for k in d.get("ins", range(n))}
         # one swept parameter and one length-1 parameter (broadcast along the sweep in every table)
-        params = {"wl": np.linspace(1.0, 2.0, len(d["S"])), "Tmp": np.array([0.375])}
+        params = {"wl": self._wl(d), "Tmp": np.array([0.375])}
         mod = lk.SolvedModel(pin_dic=pin_dic, param_dic=params, Smatrix=S)
         # the caller re-uses its buffers afterwards: the tables of the result must keep the values it was solved at
         params["wl"] *= 1000.0
@@ -73,9 +73,20 @@ class ReadStream(Stream):
         return mod
 
     @staticmethod
-    def _param_columns_ok(tab, ns):
-        """row k of a sweep table carries the k-th value of every parameter (length-1 parameters repeated)"""
+    def _wl(d):
+        """the swept values, in the order they were solved: increasing, decreasing or zig-zag (rows are never re-ordered)"""
+        ns = len(d["S"])
         wl = np.linspace(1.0, 2.0, ns)
+        kind = (len(d["idx"]) + ns + d["p"]) % 3
+        if kind == 1:
+            wl = wl[::-1].copy()
+        elif kind == 2 and ns >= 3:
+            wl = np.concatenate([wl[1::2], wl[0::2]])
+        return wl
+
+    def _param_columns_ok(self, tab, ns, d):
+        """row k of a sweep table carries the k-th value of every parameter (length-1 parameters repeated)"""
+        wl = self._wl(d)
         return (len(tab) == ns and np.array_equal(np.asarray(tab["wl"], float), wl)
                 and np.array_equal(np.asarray(tab["Tmp"], float), np.full(ns, 0.375)))
 
@@ -105,7 +116,7 @@ class ReadStream(Stream):
             out["fulldata_ok"] = bool(
                 np.array_equal(np.asarray(fd[(PP, QQ)]), dt["Amplitude"].to_numpy())
                 and np.array_equal(np.asarray(fd[(QQ, PP)]), rev["Amplitude"].to_numpy())
-                and all(self._param_columns_ok(t, ns) for t in (fo, dt, fd, rev)))
+                and all(self._param_columns_ok(t, ns, d) for t in (fo, dt, fd, rev)))
             return out
 
         def lit(r):
